@@ -1,5 +1,4 @@
 import MjProof.Lemmas.State
-import MjProof.Gen.StateTable
 /-
 C26  The state vector API is a faithful serialization.
 
@@ -12,8 +11,9 @@ ARBITRARY signature `sig : Int` (no enumeration of signatures): the guards `sig 
 `sig ≥ 2^mjNSTATE` and the `default:` branch of the switches are part of the model and the equations
 below hold on those error branches too.
 
-`generated_table_wf` discharges the hypothesis `WF` for the table of the current source tree; the
-comparison "size expression = allocated dimension" is syntactic on normal forms (coefficient and
+`generated_table_wf` (in `Props/C26Gen.lean`, kept apart so that a source change that breaks the
+table's well-formedness does not also take down the generic theorems) discharges the hypothesis `WF`
+for the table of the current source tree; the comparison "size expression = allocated dimension" is syntactic on normal forms (coefficient and
 multiset of size names, `SizeExpr.equiv`), which implies equality of the values for every assignment
 of the model sizes (`SizeExpr.equiv_sound`) — no evaluation on sample sizes is involved.
 -/
@@ -281,41 +281,57 @@ theorem getState_total (hwf : WF t) {d : Data φ α} (hd : Shaped t sz d) (sig :
 
 end
 
-/-! ### the table of the current source tree -/
+/-! ### non-vacuity: a concrete hand-made instance satisfying every hypothesis
+(the instance for the generated table is in `Props/C26Gen.lean`) -/
 
-/-- The regenerated table is well formed: `mjNSTATE ≤ 30`, one `case` per bit below `mjNSTATE`,
-    distinct bits, distinct `mjData` fields, and for every element the size expression returned by
-    `mj_stateElemSize` has the same normal form as the allocated dimension `nr*nc` of the field
-    returned by `mj_stateElemPtr`.  Decided by evaluation of the syntactic check on the finite
-    generated table. -/
-theorem generated_table_wf : WF Gen.stateTable :=
-  SymTable.wf_sound Gen.stateSym (by decide)
+inductive ExSize | n | k deriving DecidableEq
+inductive ExField | t | a | b | flags deriving DecidableEq
 
-/-! ### non-vacuity: a concrete instance satisfying every hypothesis -/
+/-- a scalar, an `n`-vector, an `n×3` array addressed as `3*n`, and an `mjtBool` array -/
+def exSym : SymTable ExSize ExField where
+  nstate := 4
+  elems := [
+    { name := "T", bit := 0, size := [.const 1], field := .t, special := none },
+    { name := "A", bit := 1, size := [.var .n], field := .a, special := none },
+    { name := "B", bit := 2, size := [.const 3, .var .n], field := .b, special := none },
+    { name := "F", bit := 3, size := [.var .k], field := .flags, special := some [.var .k] } ]
+  alloc := fun | .t => [.const 1] | .a => [.var .n, .const 1] | .b => [.var .n, .const 3] | .flags => [.var .k, .const 1]
+  isBool := fun | .flags => true | _ => false
 
-/-- all model sizes 2 -/
-def sz0 : Gen.StateSize → Nat := fun _ => 2
+def exTable := exSym.toTable
+def exSz : ExSize → Nat := fun | .n => 2 | .k => 3
 /-- `mjtNum → mjtBool → mjtNum` on integer values -/
 def castInt (x : Int) : Int := if x = 0 then 0 else 1
-/-- every field filled with zeros of its allocated length -/
-def d0 : Data Gen.StateField Int := fun f => List.replicate (Gen.stateTable.alloc f sz0) 0
-/-- every field filled with ones -/
-def d1 : Data Gen.StateField Int := fun f => List.replicate (Gen.stateTable.alloc f sz0) 1
+def exD : Data ExField Int := fun | .t => [7] | .a => [10, 11] | .b => [20, 21, 22, 23, 24, 25] | .flags => [1, 0, 1]
+def exD' : Data ExField Int := fun f => List.replicate (exTable.alloc f exSz) 5
 
-example : Shaped Gen.stateTable sz0 d0 := fun f => by simp [d0]
-example : Shaped Gen.stateTable sz0 d1 := fun f => by simp [d1]
-example : BoolOK Gen.stateTable castInt d1 := by
-  intro e _ _ x hx
-  have : x = 1 := by simp [d1] at hx; exact hx.2
-  subst this; rfl
-/-- a non-trivial signature (qpos | qvel | eq_active = 2+4+512) is served and returns 6 entries -/
-example : (getState Gen.stateTable sz0 d1 518).map List.length = .ok 6 := by rfl
-example : stateSize Gen.stateTable sz0 518 = .ok 6 := by rfl
-/-- `srcsig = 518`, `dstsig = 514` satisfies the subset hypothesis of `extract_eq_get_sub` -/
-example : (518 : Int).toNat &&& (514 : Int).toNat = (514 : Int).toNat := by decide
-/-- a non-well-formed table exists (so `WF` is a real hypothesis): two elements on one field -/
-example : ¬ WF ({ nstate := 2, alloc := fun _ _ => 1, isBool := fun _ => false,
-                  elems := [⟨0, fun _ => 1, (), none⟩, ⟨1, fun _ => 1, (), none⟩] } : Table Unit Unit) := by
-  intro h; have := h.fields_nodup; simp at this
+example : WF exTable := SymTable.wf_sound exSym (by decide)
+example : Shaped exTable exSz exD := fun f => by cases f <;> rfl
+example : Shaped exTable exSz exD' := fun f => by simp [exD']
+example : BoolOK exTable castInt exD := by
+  intro e he hs x hx
+  simp only [exTable, SymTable.toTable, exSym, List.map_cons, List.map_nil, List.mem_cons,
+    List.not_mem_nil, or_false] at he
+  rcases he with rfl | rfl | rfl | rfl <;> simp [SymElem.toElem] at hs
+  simp [SymElem.toElem, exD] at hx
+  rcases hx with rfl | rfl | rfl <;> rfl
+/-- signature `A|F` (2+8): served, 5 entries, in bit order -/
+example : getState exTable exSz exD 10 = .ok [10, 11, 1, 0, 1] := by rfl
+example : stateSize exTable exSz 10 = .ok 5 := by rfl
+/-- `srcsig = 14`, `dstsig = 10` satisfies the subset hypothesis of `extract_eq_get_sub` -/
+example : (14 : Int).toNat &&& (10 : Int).toNat = (10 : Int).toNat := by decide
+example : extractState exTable exSz [10, 11, 20, 21, 22, 23, 24, 25, 1, 0, 1] 14 10 = .ok [10, 11, 1, 0, 1] := by rfl
+/-- the error branches are reachable -/
+example : stateSize exTable exSz 16 = .error .sigRange := by rfl
+example : stateSize exTable exSz (-1) = .error .sigNeg := by rfl
+/-- a non-well-formed table (two elements on one field), so `WF` is a real hypothesis … -/
+def badTable : Table Unit Unit :=
+  { nstate := 2, alloc := fun _ _ => 1, isBool := fun _ => false,
+    elems := [⟨0, fun _ => 1, (), none⟩, ⟨1, fun _ => 1, (), none⟩] }
+example : ¬ WF badTable := by
+  intro h; have := h.fields_nodup; simp [badTable] at this
+/-- … and on it the frame property really fails: setting bit 0 changes the component of bit 1 -/
+example : (setState badTable () castInt [9] 1 (fun _ => [0]) >>= fun d => getState badTable () d 2)
+    = .ok [9] := by rfl
 
 end MjProof.C26
